@@ -19,6 +19,7 @@ MANIFEST = {
     "note": "That disjoint windows of the OS RNG are distinct byte strings is an assumption about os.urandom (RNG quality is outside the model). Distinctness of ephemeral PUBLIC keys needs injectivity of x -> g^x on the drawn range: partial.",
     "technique": "Coq proof (data-flow of explicit draws through the composition model; induction over call sequences) + recorded-RNG correspondence",
 }
+PARTIAL = ["C19_pubkey_partial: distinctness of the ephemeral PUBLIC keys of two calls needs injectivity of x -> g^x (resp. x -> x.G) on the drawn range; proved: the ephemeral private keys are distinct fresh draws"]
 ASSUMPTIONS = ["os.urandom returns independent fresh bytes on every call (distinct windows are distinct)",
                "AESGCM.generate_key(256) is os.urandom(32)"]
 RULE = ("sequences of 2..40 (thorough 200) protect calls on one cache with equal and different arguments (plaintext, SID, root key given or not, clock), every os.urandom call "
